@@ -327,6 +327,15 @@ Theorem cone_factory_vertical_coverage_refuted : forall t rs rd : R, 0 < t -> 0 
 Proof. exact cone_vertical_refuted. Qed.
 Print Assumptions cone_factory_vertical_coverage_refuted.
 
+(* ... and what the chosen height DOES cover (the instance probed on the z-min and z-max faces of shifted volumes):
+   with d = rs - rho and zm = max(|z_min|, |z_max|), every point at height |z| <= zm whose distance from the source along
+   the central ray, rs + xn, is at least sqrt(d^2 + zm^2) projects inside the detector vertically *)
+Theorem cone_factory_vertical_coverage_partial : forall zm d z xn rs rd : R,
+  0 < d -> Rabs z <= zm -> sqrt (d * d + zm * zm) <= rs + xn -> 0 <= rs + rd ->
+  Rabs ((rs + rd) * z / (rs + xn)) <= cone_factory_halfheight sqrt (zm / d) rs rd.
+Proof. exact cone_vertical_partial. Qed.
+Print Assumptions cone_factory_vertical_coverage_partial.
+
 (* ===================== 6. slicing by angle index (__getitem__) ===================== *)
 (* Parallel2dGeometry: geom[i:j] is rebuilt from the un-translated det_pos_init, the detector axis argument and the
    translation, and IS the same geometry (same det_pos_init, translation, detector) -- all arguments *)
